@@ -228,8 +228,29 @@ def _pumped(ctx: Ctx):
             yield {"kind": "pumped", "family": fam, "n": PUMP_N.get(fam, 500) if ctx.quick else 2 * PUMP_N.get(fam, 500), "opts": o}
 
 
+MARKERS = ["-", "*", "1.", "2)", ">", "#", "######", "[^a]:", "[a]:", "```", "~~~", "|", "- [ ]", "<!--", "{%", "===", "---", "\\", "[x](", "![", "<b>", "&"]
+BLANKS = ["", " ", "\t", " \t", "\t ", "\t\t", "   ", "    ", "\x0b", "\x0c", "\u00a0", "\u2003", "\r"]
+FOLLOW = ["x", "", "- y", "x\n  z", "x\n\tz", "`c`", "\tx", "[^a]"]
+
+
+def _marker_whitespace(ctx: Ctx):
+    """Every block marker followed by every kind of blank run and a few continuations, alone and inside containers:
+    the parser steps that decide how much of a line a marker consumes (tabs are expanded there)."""
+    i = 0
+    base = {"width": 88, "plaintext": False, "semantic": False, "cleanups": False, "smartquotes": False, "ellipses": False, "list_spacing": "preserve"}
+    for pre in ("", "a\n", "- ", "> ", "1. ", "[^n]: "):
+        for m in MARKERS:
+            for b in BLANKS:
+                for f in FOLLOW:
+                    i += 1
+                    if i % ctx.nshards != ctx.shard:
+                        continue
+                    yield {"kind": "soup", "text": pre + m + b + f + "\n", "opts": base if i % 3 else dict(base, semantic=True, width=20)}
+
+
 def shard_work(ctx: Ctx) -> None:
     ctx.run_cases("pumped_families", _pumped(ctx), exhaustive=True)
+    ctx.run_cases("marker_whitespace", _marker_whitespace(ctx), exhaustive=True)
     ctx.run_hypothesis("unicode_soup", _soup_case(), ctx.n(20000, 500000))
     ctx.run_hypothesis("structured_documents", _structured_case(), ctx.n(4000, 100000))
     if not ctx.quick:
